@@ -3,7 +3,8 @@
    The dirty log is page number -> bool, page = guest address / 4096 (PS); [vrun ops st] runs any sequence of
    Reader / VirtioFsWriter operations (plain and split handles) from state st. *)
 From Coq Require Import List NArith Bool Permutation.
-From FB Require Import Model.Transport Proofs.Transport Proofs.TransportMachine.
+From FB Require Import Model.Transport Proofs.Transport Proofs.TransportMachine Proofs.TransportServer.
+From FB Require Model.Server.
 Import ListNotations.
 Local Open Scope N_scope.
 
@@ -53,6 +54,36 @@ Proof. exact nonwrite_keeps. Qed.
 Theorem C17_run : forall ops st, wf_st st -> exists log rlog, step_post st (snd (vrun ops st)) log rlog.
 Proof. exact vrun_post. Qed.
 
+(* ================= whole requests (bridge to the server model, Model/Server.v) =================
+   [Server.handle] = [decide] (which calls are made, which reply action) then [perform] on an abstract writer
+   (bytes written so far + capacity), result [o_mem] = the bytes placed in the writable descriptors, in order.
+   [issued_ops cap unique a] is the sequence of VirtioFsWriter operations perform issues for action a (one write
+   on the fresh writer; or split_at(16), payload into the second half, header into the first half, commit).
+   [placed m d F om st']: om sits on the first |om| addresses of F, nothing else changed, and exactly the pages
+   of these addresses were added to the dirty log d.
+   For every reply action / every request, over an ARBITRARY writable chain b (pairwise distinct addresses): *)
+Theorem C17_whole_request_action : forall m d rd b, wf_io b -> NoDup (flat (segs b)) ->
+  forall unique (a : Server.action),
+  let o := Server.perform Server.Virtio (avail b) unique a in
+  Server.o_panic o = false /\
+  placed m d (flat (segs b)) (Server.o_mem o) (snd (vrun (issued_ops (avail b) unique a) (mkv m d rd [b]))).
+Proof. exact perform_placed. Qed.
+Theorem C17_whole_request : forall m d rd b, wf_io b -> NoDup (flat (segs b)) -> forall cfg req fr,
+  let a := snd (fst (Server.decide cfg req fr (avail b))) in
+  let o := snd (fst (Server.handle cfg Server.Virtio (avail b) req fr)) in
+  Server.o_panic o = false /\
+  placed m d (flat (segs b)) (Server.o_mem o)
+         (snd (vrun (issued_ops (avail b) (Server.u64 8 req) a) (mkv m d rd [b]))).
+Proof. exact handle_placed. Qed.
+(* every page holding a reply byte is dirty ... *)
+Theorem C17_whole_request_reply_pages_dirty : forall m d F om st', placed m d F om st' ->
+  forall x, In x (firstn (List.length om) F) -> v_dirty st' (x / PS) = true.
+Proof. exact placed_reply_pages_dirty. Qed.
+(* ... and a page that holds no reply byte (only unused reply space, request bytes, anything else) keeps its state *)
+Theorem C17_whole_request_other_pages_clean : forall m d F om st', placed m d F om st' ->
+  forall p, d p = false -> (forall x, In x (firstn (List.length om) F) -> x / PS <> p) -> v_dirty st' p = false.
+Proof. exact placed_other_pages_clean. Qed.
+
 (* non-vacuity: a chain whose writable part straddles a page border; a write of 3 bytes marks pages 1 and 2
    (addresses 8190..8192), the 4th writable byte's page stays as it was, request pages stay clean *)
 Definition ex_regions : list (N * N) := [(4096, 8192); (65536, 4096)].
@@ -69,6 +100,22 @@ Proof.
   split; [apply nodupb_sound; vm_compute; reflexivity|]. cbn zeta. split; vm_compute; reflexivity.
 Qed.
 
+(* non-vacuity of the bridge: a READ-style split reply (16-byte header + 3 payload bytes) over a 40-byte writable
+   chain with an empty descriptor in the middle whose first segment crosses a page border: the header lands on
+   8180..8195, the payload on 8196..8198, pages 1 and 2 are marked, the pages of the unused rest are not *)
+Definition ex_b : iobuf := mkio [mkseg 8180 20; mkseg 12288 0; mkseg 20000 20] 0.
+Example C17_whole_request_nonvacuous :
+  wf_io ex_b /\ NoDup (flat (segs ex_b)) /\
+  let o := Server.perform Server.Virtio (avail ex_b) 9 (Server.ReplySplit [1; 2; 3]) in
+  Server.o_mem o = Server.out_header 19 0 9 ++ [1; 2; 3] /\
+  let st' := snd (vrun (issued_ops (avail ex_b) 9 (Server.ReplySplit [1; 2; 3])) (mkv (mem_init 1) dirty_none [] [ex_b])) in
+  map (mget (v_mem st')) [8180; 8195; 8196; 8197; 8198; 8199] = [19; 0; 1; 2; 3; pat 1 8199] /\
+  map (v_dirty st') [0; 1; 2; 3; 4] = [false; true; true; false; false].
+Proof.
+  split; [apply wf_io_b; vm_compute; reflexivity|]. split; [apply nodupb_sound; vm_compute; reflexivity|].
+  cbn zeta. split; [vm_compute; reflexivity|]. split; vm_compute; reflexivity.
+Qed.
+
 Print Assumptions C17_mark_range.
 Print Assumptions C17_mark_dirty.
 Print Assumptions C17_write.
@@ -78,3 +125,7 @@ Print Assumptions C17_only_written.
 Print Assumptions C17_only_consumed_marked.
 Print Assumptions C17_nonwrite_ops_do_not_mark.
 Print Assumptions C17_run.
+Print Assumptions C17_whole_request_action.
+Print Assumptions C17_whole_request.
+Print Assumptions C17_whole_request_reply_pages_dirty.
+Print Assumptions C17_whole_request_other_pages_clean.
